@@ -191,7 +191,7 @@ def run(pid: str, tier: str) -> dict:
     import buildrun
     seed = common.seed()
     import dyncases
-    ntr, length, nshape = (600, 25, 600) if tier == "quick" else (6000, 40, 6000)
+    ntr, length, nshape = (600, 25, 600) if tier == "quick" else (3000, 40, 3000)
     rng = random.Random(seed * 104729 + 7)
     hist = [(f"h{seed}-{i}", rand_history(rng, rng.randint(3, length))) for i in range(ntr)]
     shapes = []
